@@ -49,6 +49,15 @@ func c08Populate(ctx sdk.Context, k Keeper) c08Store {
 			panic(err)
 		}
 	}
+	// the per-query sequence number counts the stored aggregates (what SetAggregate maintains, C08.b)
+	if s.n > 0 {
+		if err := k.Nonces.Set(ctx, s.q, uint64(s.n)); err != nil {
+			panic(err)
+		}
+	}
+	if err := k.Nonces.Set(ctx, s.other, 1); err != nil {
+		panic(err)
+	}
 	to := ndUint64("tsOther")
 	ndAssume(to >= 1 && to < c08MaxMs)
 	if err := k.Aggregates.Set(ctx, collections.Join(s.other, to), types.Aggregate{QueryId: s.other, MetaId: 999, AggregateReporter: ndBech32("reporterOther")}); err != nil {
@@ -172,6 +181,9 @@ func VerifC08_set_aggregate() {
 		}
 	} else {
 		nonce = 0
+		if err := k.Nonces.Remove(ctx, s.q); err != nil {
+			panic(err)
+		}
 	}
 	nowMs := ndUint64("nowMs")
 	ndAssume(nowMs >= 1 && nowMs < c08MaxMs)
